@@ -40,6 +40,14 @@ pub fn tree(prop: &str) -> TreeSpec {
         lit("sub/page.html", b"<p>nested page</p>\n"),
         lit("\u{434}\u{43e}\u{43a}/\u{444}\u{430}\u{439}\u{43b}.txt", b"non-ascii path\n"),
         gen("medium.bin", 70_000, true, 1),
+        Entry { path: "root/medium.bin.gz".into(), kind: EntryKind::File(Content::GzipOf(Box::new(Content::Gen { marker: String::new(), len: 70_000, seed: 0x3A7 + 1, binary: true }))) },
+        Entry { path: "root/crlf.csv.gz".into(), kind: EntryKind::File(Content::GzipOf(Box::new(Content::Literal(b"a,b\r\n1,2\r\n3,4\r\n".to_vec().into())))) },
+        lit("legacy/index.htm", b"<p>an index page of another era</p>\n"),
+        lit("legacy/about.htm", b"<p>about</p>\n"),
+        lit("meta.html", b"<!DOCTYPE html>\n<html>\n<head>\n<meta\n    charset=utf-8\n>\n<meta http-equiv=\"refresh\" content=\"5; url=http://other.example/\">\n<title>x</title>\n</head>\n<body>x</body>\n</html>\n"),
+        lit("decl.xml", b"<?xml version=\"1.0\" encoding=\"ISO-8859-1\"?>\n<a/>\n"),
+        lit("charset.css", b"@charset \"utf-8\";\nbody{}\n"),
+        lit("mapped.js", b"console.log(1)\n//# sourceMappingURL=mapped.js.map\n"),
         Entry { path: "root/large.bin".into(), kind: EntryKind::File(Content::Sparse { len: (1 << 20) + 17, seed: 0x3A7 }) },
         Entry { path: "root/larger.bin".into(), kind: EntryKind::File(Content::Sparse { len: (8 << 20) + 1, seed: 0x3A8 }) },
         Entry { path: "root/sub/up.txt".into(), kind: EntryKind::Symlink("../file.txt".into()) },
@@ -56,7 +64,7 @@ pub const PATHS: &[&str] = &[
     "/file.txt", "/page.html", "/page", "/d/", "/d", "/big.bin", "/empty.txt", "/one.txt", "/missing.txt", "/", "/style.css",
     "/bom.json", "/bom.txt", "/onlybom16.txt", "/crlf.csv", "/image-without-extension", "/signature.bin", "/doc.pdf", "/photo.jpg", "/file.txt.part", "/file.txt.bak", "/file.txt.gz",
     "/app.3f9a1c0b.js", "/main.d52a326aad007bd1.css", "/image@2x.png", "/favicon.ico", "/.htaccess", "/.well-known/security.txt", "/.well-known/acme-challenge/tok-1",
-    "/d/rws.config.toml", "/sub/dir/", "/sub/page", "/\u{434}\u{43e}\u{43a}/\u{444}\u{430}\u{439}\u{43b}.txt", "/medium.bin", "/large.bin", "/larger.bin", "/sub/up.txt", "/ln.txt",
+    "/d/rws.config.toml", "/sub/dir/", "/sub/page", "/\u{434}\u{43e}\u{43a}/\u{444}\u{430}\u{439}\u{43b}.txt", "/medium.bin", "/crlf.csv", "/legacy/", "/legacy", "/legacy/index.htm", "/meta.html", "/decl.xml", "/charset.css", "/mapped.js", "/large.bin", "/larger.bin", "/sub/up.txt", "/ln.txt",
     "/form-get-method?a=1", "/file.txt?download=1&filename=x.txt", "/d/index.html#top",
 ];
 
